@@ -103,8 +103,8 @@ class _Sealer:
         seq = self.recv_seq
         plain = _xor(body, _keystream(self.key, self.recv_dir, seq, len(body)))
         parts = [plain] + ([header, trailer] if sign_header else [])
-        if not hmac.compare_digest(_mac(self.key, self.recv_dir, seq, parts, self.sig_size), bytes(sig)):
-            raise StubCtxError("bad signature")
+        if not sig or not hmac.compare_digest(_mac(self.key, self.recv_dir, seq, parts, len(sig)), bytes(sig)):
+            raise StubCtxError("bad signature")  # (the peer's signature size may differ from ours: verified at its own length)
         self.recv_seq += 1
         return plain
 
@@ -187,7 +187,7 @@ class StubAcceptor:
     def __init__(self, cfg: dict, secret: bytes):
         self.legs = int(cfg.get("legs", 2))
         self.empty_last = bool(cfg.get("empty_last", False))
-        self.sig = int(cfg.get("sig", 16))
+        self.sig = int(cfg.get("sig_srv", cfg.get("sig", 16)))  # the acceptor's own signature size may differ from the initiator's
         self.tok_size = int(cfg.get("tok_size", 24))
         self.secret = secret
         self.seen = 0
